@@ -16,7 +16,7 @@ Local Open Scope Z_scope.
 
 Inductive cerr :=
 | EUnsupportedType | EMultiResult | ECantCompile | EShadowing | ETooManyLocals | ENotLocal | ENakedReturn
-| EAssignShape | ENotVoidStmt | EBadConst | ETooManyConsts | ETooManyVariadic | ETooBig | ECStyleFor.
+| EAssignShape | ENotVoidStmt | EBadConst | ETooManyConsts | ETooManyVariadic | ETooBig | ECStyleFor | ETooManyParams.
 
 Inductive cres (A : Type) := COk (a : A) | CErr (e : cerr).
 Arguments COk {A} a.
@@ -423,6 +423,8 @@ Definition compile_fun (cfg : config) (f : fundecl) : cres cfunc :=
            end ;;
   if negb (supported rt) then CErr EUnsupportedType else
   do '(op, ip, nobj, nint) <- split_params (fd_params f) [] [] 0 0 ;;
+  (* a parameter is addressed by an 8-bit operand *)
+  if (256 <? nobj) || (256 <? nint) then CErr ETooManyParams else
   let env := mkce op ip (ty_eqb rt TVoid) in
   do '(st, rb) <- rblock cfg env (fd_body f) (mkcs [] [] []) ;;
   let c := genblock cfg rb 0 ++ (if ty_eqb rt TVoid then [I0 KReturn] else []) in
